@@ -444,8 +444,17 @@ def run(tier, out):
     if not r.ok:
         raise core.ToolError("Gen_DownlinkInactivity failed: %s" % r.status)
     idle = []
+    all_scripts = r.tagged.get("SCRIPT", [])
+    IDLE_CAP = 30000            # executions per channel capacity: the thorough enumeration (224 k scripts) is sampled
+    if len(all_scripts) > IDLE_CAP:
+        rs = random.Random(core.seed() + 77)
+        picked = sorted(rs.sample(range(len(all_scripts)), IDLE_CAP))
+        core.log("[C07] inactivity scripts: %d enumerated by TLC, a seeded sample of %d is executed" % (len(all_scripts), IDLE_CAP))
+    else:
+        picked = range(len(all_scripts))
     for cap in (0, 1):
-        for i, sc in enumerate(r.tagged.get("SCRIPT", [])):
+        for i in picked:
+            sc = all_scripts[i]
             acts = [dict(a, settle=True, exp={}) for a in sc] + [{"k": "finish", "settle": True, "exp": {}}]
             idle.append({"id": "i%d.%d" % (cap, i), "cfg": {"kind": "map", "cap": cap, "init": {"k1": "i1"}, "timeout_ms": 1000},
                          "acts": acts})
